@@ -171,6 +171,13 @@ func C03(c *vf.Check) {
 	// a variable read by a yielded composite literal (struct value / pointer to a fresh object) is read when the yield is reached
 	runFam(c, famSpec{id: "C03", fam: "box", name: "F_boxv", sizeQ: "3", sizeT: "4", tapeQ: "2", tapeT: "3", callsQ: 5, callsT: 6,
 		keys: fullKeys, opts: srcOpts{Box: true, BoxVal: true}, rule: ""})
+	// consumer loops whose body re-declares the loop variable (`v := v + 100`, `v, w := f(..)` after a closure captured
+	// v): the consumers of MC_Cons.tla with a shadowing body, default configuration
+	rule := c.Cov["rule"]
+	_, n, _, _, _ := consFamily(c, true)
+	c.Add("evaluations", int64(n))
+	c.Add("traces_validated_against_impl", int64(n))
+	c.Cov["rule"] = fmt.Sprint(rule) + "; plus every consumer function of MC_Cons.tla (C06) whose range loop over an iterator has a body that re-declares the loop variable"
 	// loop variables captured by closures: every iteration of `for a := ..; ..; a++` has its own a (go >= 1.22)
 	runFam(c, famSpec{id: "C03", fam: "loopvar", name: "F_loopvar", sizeQ: "4", sizeT: "4", tapeQ: "3", tapeT: "5", callsQ: 5, callsT: 6,
 		keys: fullKeys, budget: 60, flags: []string{"KF35"}, rule: ""})
